@@ -49,6 +49,7 @@ CB1, DFSTRUCT, BACKSHIFT = "cb1", "dfstruct", "backshiftguard"
 BUF, VSVAL = "buffer", "vsval"     # a freshly obtained buffer (its slots); a `RawVec` / `Vec` value under construction     # kinds whose threaded state is the vector model: `Vec` methods, and methods of its iterator structs
 BD, DRAIN, ITER2 = "bound", "drainstruct", "sliceiter"
 SLICE, CB2 = "slice", "cb2"   # a sub-slice of the vector's buffer (first slot, length); a two-argument predicate (call log as data)
+VECSNAP = "vecsnap"       # the receiver of a `&self` method that builds a new vector: a snapshot of the source vector (`V.VS`)
 VIT = "vit"               # an iterator handed to the vector by value (the model's `V.It`): owned by the local that holds it
 XSLICE = "xslice"         # a slice outside the vector's buffer (`&[T]`, `*const [T]`): its slots
 XPTR = "xptr"             # pointer to the first element of such a slice
@@ -89,6 +90,7 @@ def lean_ty(t):
     if t == SLICE: return "(Nat × Nat)"
     if t == XSLICE: return "(List (Option V.Elem))"
     if t == VIT: return "V.It"
+    if t == VECSNAP: return "V.VS"
     if t == CB2: return "(Nat → V.Elem → V.Elem → Option Bool)"
     if t == BUF: return "(List (Option V.Elem))"
     if t == VSVAL: return "V.VS"
@@ -265,7 +267,11 @@ FUNCS += [
     Fn("extend_from_slice_copy_unchecked", "vec", "st", file=VEC_RS, group="VecCopy", lean="vec_extend_from_slice_copy_unchecked", ptypes={"other": "xslice"}),
     Fn("extend_from_slice_copy", "vec", "st", file=VEC_RS, group="VecCopy", lean="vec_extend_from_slice_copy", ptypes={"other": "xslice"}),
     Fn("extend", "vec", "st", file=VEC_RS, group="VecCopy", anchor="Extend<T> for Vec<'bump, T>", lean="vec_extend", ptypes={"iter": VIT}),
+    Fn("from_iter_in", "vec", "st", file=VEC_RS, group="VecCopy", anchor=VEC_IMPL, lean="vec_from_iter_in", ptypes={"iter": VIT}, ret=UNIT),
+    Fn("clone", "vec", "st", file=VEC_RS, group="VecCopy", anchor="Clone for Vec<'bump, T>", lean="vec_clone", ret=UNIT),
 ]
+FUNCS[-1].builds_vec = True
+FUNCS[-2].builds_vec = True
 DRAIN_FIELDS = [("tail_start", "usize"), ("tail_len", "usize"), ("iter", "slice::Iter<'a,T>")]
 FUNCS += [
     Fn("drain", "vec", "st", file=VEC_RS, group="VecDrain", anchor=VEC_IMPL, lean="vec_drain", ptypes={"range": ("tuple", [BD, BD])}),
@@ -350,7 +356,7 @@ class Env:
         return e
 
     def guards(self):
-        return [x[1] for x in self.owned if isinstance(x, tuple) and x[0] != "iter"]
+        return [x[1] for x in self.owned if isinstance(x, tuple) and x[0] not in ("iter", "vecval")]
 
     def fresh(self, name):
         name = name.replace("self.", "self_")
@@ -465,6 +471,8 @@ class Tr:
             if isinstance(ln, tuple) and ln[0] == "guardfn":      # a guard whose destructor is a translated function
                 finals = [env.d["self." + f][0] for f, _ in self.fn.self_fields]
                 t = f"(RsM.stateOf (Gen.Fn.df_backshift_drop c pred {' '.join(finals)} {t}))"
+            elif isinstance(ln, tuple) and ln[0] == "vecval":    # a vector under construction: `Drop for Vec` (its elements, its buffer)
+                t = f"(RsM.drop_vec c {t})"
             elif isinstance(ln, tuple) and ln[0] == "iter":      # an iterator held by value: dropping it drops what it still owns
                 t = f"(RsM.it_drop c {env.d[ln[1]][0]} {t})"
             elif isinstance(ln, tuple):      # a `SetLenOnDrop` guard: its destructor stores the length it carries
@@ -531,6 +539,12 @@ class Tr:
         for ln in list(env.owned):
             if not isinstance(ln, tuple) and re.search(r"(?<![A-Za-z0-9_.'])%s(?![A-Za-z0-9_'])" % re.escape(ln), t):
                 env = env.disown(ln)
+        if ty == VECSELF and any(isinstance(x, tuple) and x[0] == "vecval" for x in env.owned):
+            env = env.copy()
+            env.owned = [x for x in env.owned if not (isinstance(x, tuple) and x[0] == "vecval")]     # moved out to the caller
+            t, ty = "()", UNIT
+        if any(isinstance(x, tuple) and x[0] == "vecval" for x in env.owned):
+            raise Untranslatable("a vector under construction is neither returned nor dropped explicitly")
         order = [x for x in reversed(env.owned) if not isinstance(x, tuple) or x[0] == "iter"]
         if env.guards():
             raise Untranslatable("a drop guard is live at the end of the function")
@@ -644,6 +658,8 @@ class Tr:
                     return "self", "selfstruct"
                 if self.fn.kind == "rawvec":
                     return "v", RAWVEC
+                if self.fn.kind == "vec" and "self" in env.d:
+                    return env.d["self"]
                 if self.fn.kind == "vec":
                     return "self", VECSELF
                 return "self", BUMP if self.fn.kind != "chunk" else CHUNK
@@ -735,6 +751,7 @@ class Tr:
             if ty == RAWVEC and f == "a": return "()", UNIT      # the `&Bump` the buffer lives in
             if ty == VECSELF and f == "len": return f"{self.sv}.1.len", NAT
             if ty == VECSELF and f == "buf": return f"{self.sv}.1", RAWVEC
+            if ty == VECSNAP and f == "buf": return t, RAWVEC
             if ty == "selfstruct" and ("self." + f) in env.d: return env.d["self." + f]
             if ty == "selfstruct" and f == "vec" and self.fn.kind in ("drain", "dfilter"): return "self", VECSELF
             if ty == "selfstruct" and self.fn.self_prefix and f == self.fn.self_prefix: return "self", "selfstruct"
@@ -776,6 +793,12 @@ class Tr:
                 return f"(0, {self.sv}.1.len)", SLICE
             if ty == SLICE and name == "len" and not args:
                 return f"{paren(t)}.2", NAT
+            if ty == VECSNAP and name == "len" and not args:
+                return f"{paren(t)}.len", NAT
+            if ty == VECSNAP and name == "iter" and not args:
+                return t, ("snapiter",)
+            if ty == ("snapiter",) and name == "cloned" and not args:
+                return f"(V.It.cloned {paren(t)}.owned)", VIT
             if ty == VIT and name == "into_iter" and not args:
                 return t, VIT
             if ty == VIT and name == "size_hint" and not args:
@@ -1460,6 +1483,9 @@ class Tr:
         for t, ty in pa:
             if ty in (ELEM, EXTW) and t in env.owned:      # passed by value: the callee owns (and drops) it from here on
                 env = env.disown(t)
+            if ty == VIT:
+                for mk in [x for x in env.owned if isinstance(x, tuple) and x[0] == "iter" and env.d.get(x[1], (None,))[0] == t]:
+                    env = env.disown(mk)
         if g.mode == "read":
             call += " " + self.sv
         vty = rty
@@ -2088,6 +2114,25 @@ class Tr:
                     e3, ln = env_.bind(pat[1], ("gen",))
                     self.gens[ln] = init[2][0][2]
                     return go(i + 1, e3)
+
+                if pat[0] == "pid" and init[0] == "call" and init[1][0] == "path" and init[1][1] in (["Vec", "new_in"], ["Vec", "with_capacity_in"]) \
+                        and self.fn.kind == "vec" and getattr(self.fn, "builds_vec", False):
+                    # the function builds a new vector: from here on the threaded vector is the new one (the frame owns it: `Drop
+                    # for Vec` runs if the function unwinds); the `&self` source, if any, stays readable as a snapshot
+                    def knew(ctor, e2):
+                        e2b, snap = e2.bind("src", VECSNAP)
+
+                        def kdone(t_, ty_, e3):
+                            e4 = e3.copy()
+                            e4.d[pat[1]] = ("self", VECSELF)
+                            if any(n_ == "self" for n_, _ in self.sig["params"]):
+                                e4.d["self"] = (snap, VECSNAP)
+                            e4.owned.append(("vecval", pat[1]))
+                            return go(i + 1, e4)
+                        return f"let {snap} := {self.sv}.1;\n" + self.bind_call(f"RsM.new_vec ({ctor})", "st", K(kdone), e2b, UNIT)
+                    if init[1][1][1] == "new_in":
+                        return knew("Gen.Fn.vec_new_in c ()", env_)
+                    return self.E(init[2][0], env_, K(lambda n_, tn_, e2: knew(f"Gen.Fn.vec_with_capacity_in c {paren(n_)} ()", e2)))
 
                 def kl(t, ty, e2):
                     if pat[0] == "pid" and ty == BACKSHIFT:    # a guard: its destructor runs when the scope ends, also by unwinding
